@@ -66,7 +66,7 @@ def run(ck):
     sk.regen_tables(ck)
     if THEOREMS:
         ck.prove('C05', THEOREMS)
-    fails, mism = wk.campaign(ck, ck.scale(40, 1200), oracle, gen_kw={'extra_prob': 0.0}, coq_lanes=1, coq_every=2)
+    fails, mism = wk.campaign(ck, ck.scale(40, 1200), oracle, gen_kw={'extra_prob': 0.0, 'strip_prob': 0.25}, coq_lanes=1, coq_every=2)
     # small-circuit stress: 2-4 gates, many lanes, so that every primitive sees internally generated pulses on its pins
     import random
     rng = random.Random(ck.seed * 7919 + 505)
